@@ -218,6 +218,16 @@ namespace {
                 con->remote_connection_created( peer_address( std::stoul( w.at( 1 ) ) ) );
                 return "-";
             }
+            if ( w[ 0 ] == "bond" )
+            {
+                // the application's bond data base already holds a bond: peer a, ( ediv, rand ), key kb x 16
+                bluetoe::details::longterm_key_t k;
+                k.longterm_key.fill( static_cast< std::uint8_t >( std::stoul( w.at( 4 ) ) & 0xff ) );
+                k.ediv = static_cast< std::uint16_t >( std::stoul( w.at( 2 ) ) );
+                k.rand = std::stoull( w.at( 3 ) );
+                db.entries.insert( db.entries.begin(), db_t::entry{ peer_address( std::stoul( w.at( 1 ) ) ), k } );
+                return "-";
+            }
             return "BADOP";
         }
     };
